@@ -126,6 +126,12 @@ def pow_stream(ctx, n):
             ctx.disagree(f"C06:pow:value:{'neg' if e < 0 else 'zero' if e == 0 else 'pos'}", line, a[1][:300],
                          (type(res[1]).__name__, np.asarray(res[1].array).tolist()), replay=[line])
             continue
+        # the exponent as a numpy integer (what indexing an integer array or `range` arithmetic on arrays hands out)
+        if i % 3 == 0:
+            rn = call_impl(lambda: T ** np.int64(e))
+            if rn[0] != "ok" or type(rn[1]) is not type(res[1]) or not np.array_equal(np.asarray(rn[1].array), np.asarray(res[1].array)):
+                ctx.disagree("C06:pow:numpy-int-exponent", line + " exponent as numpy.int64", "the same as with a Python int",
+                             rn[1:3] if rn[0] != "ok" else np.asarray(rn[1].array).tolist(), replay=[line])
         base = T if e >= 0 else T.inverse()
         acc = g.identity(T.dim) if t.nfree == 0 else g.identity(T.dim, T.shape[:1])
         for _ in range(abs(e)):
